@@ -29,14 +29,15 @@ Rate(fam, key) == CASE fam = "exc" -> 3 [] fam = "rec" -> 5
                     [] fam = "tcx" -> 7 + 2 * Idx(key)                 \* per donor
                     [] fam = "plt" -> 11 [] fam = "prb" -> 13 [] fam = "prc" -> 17
                     [] fam = "gaunt" -> 2
-                    [] fam = "bcx" -> 19 + 4 * key                     \* per beam metastable (1, 2)
-                    [] fam = "bmp" -> 1 + Idx(key)                     \* beam population coefficient per target species
+                    [] fam = "bcx" -> 19 + 4 * key                     \* per beam metastable (1, 2, 3)
+                    [] fam = "bmp" -> 1 + Idx(key[1]) + 3 * (key[2] - 2)   \* beam population coefficient per <<target species, metastable>>
                     [] fam = "bes" -> 23 + 2 * Idx(key)                \* beam emission coefficient per target species
 
 \* the rate table, for the mock provider of the conformance harness
 ASSUME PrintT(ToJson([rates |-> [exc |-> Rate("exc", "d0"), rec |-> Rate("rec", "d1"), plt |-> Rate("plt", "c5"), prb |-> Rate("prb", "c6"), prc |-> Rate("prc", "c6"),
-                                 gaunt |-> Rate("gaunt", "d1"), tcx |-> [s \in Names |-> Rate("tcx", s)], bmp |-> [s \in Names |-> Rate("bmp", s)],
-                                 bes |-> [s \in Names |-> Rate("bes", s)], bcx |-> <<Rate("bcx", 1), Rate("bcx", 2)>>]]))
+                                 gaunt |-> Rate("gaunt", "d1"), tcx |-> [s \in Names |-> Rate("tcx", s)],
+                                 bmp |-> [s \in Names |-> <<Rate("bmp", <<s, 2>>), Rate("bmp", <<s, 3>>)>>],
+                                 bes |-> [s \in Names |-> Rate("bes", s)], bcx |-> <<Rate("bcx", 1), Rate("bcx", 2), Rate("bcx", 3)>>]]))
 
 VARIABLES model, dens, temp, ne, te, nb
 vars == <<model, dens, temp, ne, te, nb>>
@@ -85,10 +86,10 @@ Unspecified == \/ (model = "tcx" /\ \E s \in Donors : N(s) < 0)
 SumZN  == SumS([s \in Names |-> Charge(s) * N(s)], Present)
 SumZ2N == SumS([s \in Names |-> Charge(s) * Charge(s) * N(s)], Present)
 SumN   == SumS([s \in Names |-> N(s)], Ions)
-\* relative population of beam metastable 2:  sum_i Z_i n_i k_i / sum_i Z_i n_i
-Pop2 == <<SumS([s \in Names |-> Charge(s) * N(s) * Rate("bmp", s)], Present), SumZN>>
-\* q = (q_1 + pop q_2) / (1 + pop)
-QMean == <<Rate("bcx", 1) * Pop2[2] + Pop2[1] * Rate("bcx", 2), Pop2[2] + Pop2[1]>>
+\* relative population of the excited beam metastable m (2, 3):  sum_i Z_i n_i k_(m,i) / sum_i Z_i n_i ; numerator over SumZN
+PopNum(m) == SumS([s \in Names |-> Charge(s) * N(s) * Rate("bmp", <<s, m>>)], Present)
+\* q = (q_1 + sum_m pop_m q_m) / (1 + sum_m pop_m), each excited state weighted by its own population
+QMean == <<Rate("bcx", 1) * SumZN + PopNum(2) * Rate("bcx", 2) + PopNum(3) * Rate("bcx", 3), SumZN + PopNum(2) + PopNum(3)>>
 BeamTotal ==
   CASE model = "bcx" -> IF nb = 0 \/ N("c6") = 0 \/ temp["c6"] = 0 THEN <<0, 1>> ELSE <<nb * N("c6") * QMean[1], QMean[2]>>
     [] model = "bes" -> <<nb * SumS([s \in Names |-> Charge(s) * N(s) * Rate("bes", s)], Present), 1>>
@@ -102,7 +103,7 @@ ZeroWhenNonPositive == (model \in {"exc", "rec", "tcx", "trp", "brems"} /\ (ne <
 NonNegative == (model \in {"exc", "rec", "tcx", "trp", "brems"} /\ ~Unspecified) => Total >= 0
 \* q lies between the smallest and largest coefficient (cross-multiplied)
 QBetween == (model = "bcx" /\ ~Raises /\ QMean[2] > 0) =>
-               /\ Rate("bcx", 1) * QMean[2] <= QMean[1] /\ QMean[1] <= Rate("bcx", 2) * QMean[2]
+               /\ Rate("bcx", 1) * QMean[2] <= QMean[1] /\ QMean[1] <= Rate("bcx", 3) * QMean[2]
 BeamVanishes == (model \in {"bcx", "bes"} /\ nb = 0) => BeamTotal[1] = 0
 
 EmitCase == PrintT(ToJson([model |-> model, dens |-> dens, temp |-> temp, ne |-> ne, te |-> te, nb |-> nb, raises |-> Raises,
